@@ -58,7 +58,9 @@ def gen_invalid(sc, rng, for_write):
         if c == "index-out-of-range" and t.dims and t.dtype.name != "DWORD":
             idx = [0] * len(t.dims)
             k = rng.randrange(len(t.dims))
-            idx[k] = t.dims[k] + rng.choice([0, 1, 100])
+            # just beyond the dimension, and far beyond it: element numbers that need a 16- or 32-bit path segment
+            idx[k] = rng.choice([t.dims[k], t.dims[k] + 1, t.dims[k] + 100, max(t.dims[k], 255), max(t.dims[k], 256), max(t.dims[k], 65535), max(t.dims[k], 65536), 70000,
+                                 1 << 31, (1 << 32) - 1, 1 << 32, (1 << 32) + 5, 10 ** 20])
             v = logixreq.gen_value_for(t.dtype, rng, overlong_strings=False)
             return Bad(f"{t.full_name}[{','.join(map(str, idx))}]", c, v)
         if c == "count-out-of-range" and t.dims and t.dtype.name != "DWORD" and t.dtype.size * (t.elements + 3) < 9000:
@@ -148,7 +150,11 @@ def run(ctx):
                     if not items:
                         continue
                     n = len(items)
-                stt = rng.choice([(0x0F, ()), (0x05, ()), (0xFF, (0x2107,)), (0x10, ()), (0x04, (0,))])
+                # also statuses that have an extended-status table in the library combined with extended words the table lacks, with
+                # no extended word at all, and statuses without any text
+                stt = rng.choice([(0x0F, ()), (0x05, ()), (0xFF, (0x2107,)), (0x10, ()), (0x04, (0,)),
+                                  (0xFF, (0x2115,)), (0xFF, ()), (0x05, (0x0002,)), (0x01, (0x0999,)), (0x1F, (0x7777,)), (0x04, (0x1234,)), (0x01, ()),
+                                  (0x26, ()), (0x2A, (0x0001, 0x0002))])
 
                 # the error may hit every service for that tag, or only the k-th one (e.g. a middle fragment of a fragmented transfer)
                 def base_of(text):
